@@ -31,7 +31,7 @@ func main() {
 		panic(err)
 	}
 	switch *family {
-	case "engine", "fe":
+	case "engine", "fe", "modes":
 		engine(*family, *profile, *seed, *n, *out, *shard, *ids)
 	default:
 		only := map[int]bool{}
@@ -96,7 +96,23 @@ func engine(family, profile string, seed uint64, n int, out string, shard int, i
 		}
 		g := &eng.Gen{R: eng.NewRng(seed*1000003 + uint64(i)), P: p}
 		var c *eng.Case
-		if family == "fe" {
+		if family == "modes" {
+			cv, cp, diff := eng.NewModesCase(g, i)
+			if diff != "" {
+				failures = append(failures, map[string]any{"id": 2 * i, "tags": []string{"modes_agree"}, "detail": diff})
+			}
+			for _, cc := range []*eng.Case{cv, cp} {
+				stats.Add(cc)
+				cur = append(cur, cc.Coq())
+			}
+			if len(samples) < 2 {
+				samples = append(samples, cv.Coq(), cp.Coq())
+			}
+			if len(cur) >= shard {
+				flush()
+			}
+			continue
+		} else if family == "fe" {
 			c = eng.NewFECase(g, i)
 			if c.FEDiff != "" {
 				tag := "fe_equiv"
